@@ -188,3 +188,35 @@ reg(Contract('dd.bdd.BDD.pick!observed', REG['dd.bdd.BDD.pick_iter!observed'].pa
              post=pick_post, ret='optional-assignment', uses={'order'}, assumed=True,
              note='observed contract (cross-checked on real executions; not used by proofs)'))
 M.REG_ALL_ASSIGNMENTS.add('dd.bdd.BDD.pick!observed')
+
+
+# ---------------------------------------------------------------------------------------------------------------------
+# image / preimage wrappers (C13): observed contracts over the ghost relational product of `_image` (contracts_bdd.py). The level
+# maps `umap` / `vmap` are ghost arguments: the renaming read through the variable order of the entry state.
+def _img_wrapper(direction):
+    from vlib.vc import contracts_bdd as CB
+
+    def pre(c):
+        S, a = c.S, c.a
+        return wf(S, {'rc', 'cache', 'order'}) + [
+            ('refs', And(isref(S, a.trans), isref(S, a.other))), ('entry-heap-is-the-entry-state', CB.Ext(CB.EI, S, {'cache', 'rc'})),
+            ('Q-is-the-levels-of-qvars', And(
+                ForAll([n_], Implies(a.qvars.has[n_], And(S.vin[n_], CB.Q[S.v2l[n_]])), patterns=[a.qvars.has[n_]]),
+                ForAll([l_], Implies(CB.Q[l_], And(S.lin[l_], a.qvars.has[S.l2v[l_]])), patterns=[CB.Q[l_]])))] + \
+            [(nm, g) for nm, g in CB.img_axioms(CB.EI, a) if nm != 'unfold-everywhere'] + [('unfold-everywhere', ForAll(
+                [CB.u2_, CB.v2_], CB.UNF(CB.u2_, CB.v2_), patterns=[CB.UNF(CB.u2_, CB.v2_)]))]
+
+    def post(c):
+        S0, S1, a, r = c.S0, c.S1, c.a, c.r
+        return wf(S1, {'rc', 'cache', 'order'}) + [
+            ('relational-product', And(isref(S1, r), semr(S1, r) == CB.img_val(a, a.trans, a.other))),
+            ('existing-nodes-kept', CB.Ext(S0, S1, {'cache', 'rc'})), ('order-kept', M.keep(S0, S1, list(M.ORDER_FIELDS))),
+            ('switches-kept', And(S1.lastlen == S0.lastlen, S1.ctx == S0.ctx))]
+    reg(Contract(f'dd.bdd.{direction}!observed', [('trans', 'int'), ('other', 'int'), ('rename', 'any'), ('qvars', 'set:name'), ('bdd', 'mgr'),
+                                                   ('forall', 'bool')], mgr='bdd', pre=pre, post=post, modifies=M.ALLF, ret='int',
+                 uses={'rc', 'cache', 'order'}, assumed=True,
+                 note='observed contract (cross-checked on real executions; not used by proofs); inputs satisfy the documented preconditions'))
+
+
+_img_wrapper('image')
+_img_wrapper('preimage')
